@@ -45,7 +45,7 @@ def _gen_one(rng):
     maxrank = []                                      # per checkpoint: largest rank named (transitively), -1 if none
     depth = []                                        # nesting depth
     next_key = [rng.randint(0, 5)]
-    style = rng.choice(["mixed", "mixed", "gates", "singles", "shared", "nested", "parallel"])
+    style = rng.choice(["mixed", "mixed", "gates", "singles", "shared", "nested", "parallel", "fan"])
 
     def new_cmp(limit):
         """a comparison naming only actions of rank < limit"""
@@ -98,6 +98,20 @@ def _gen_one(rng):
         return ["cmp", new_cmp(limit)]
 
     def new_cp(limit, lvl):
+        if style == "fan" and lvl == 0 and rng.random() < 0.5:
+            # 8-12 distinct comparisons on one action: that many parallel edges between the gate and the action
+            pool = [a for a in ids if rank[a] < limit]
+            x = rng.choice(pool)
+            deps = []
+            for _ in range(rng.randint(8, 12)):
+                key = next_key[0]
+                next_key[0] += 1
+                cmps[key] = (x, None) if rng.random() < 0.7 else (None, x)
+                deps.append(["cmp", key])
+            cps.append({"gate": rng.choice(GATES), "deps": deps, "info": rng.random() < 0.2})
+            maxrank.append(rank[x])
+            depth.append(0)
+            return len(cps) - 1
         if style == "singles":
             nd = 1 if rng.random() < 0.8 else rng.randint(2, 3)
         elif style == "gates":
@@ -232,6 +246,9 @@ def render(case, rng):
         if rng.random() < 0.1 and free_numbers:
             cp_alias[i] = str(free_numbers.pop(rng.randrange(len(free_numbers))))
     party_name = ["party %d" % i for i in range(len(case["parties"]))]
+    if len(party_ids) >= 2 and rng.random() < 0.35:
+        # names that are the decimal spelling of ANOTHER party's id: "party:{7}" and "party:7" are different parties
+        party_name = [str(party_ids[(i + 1) % len(party_ids)]) for i in range(len(party_ids))]
 
     def aref(a):
         return "action:%d" % a if rng.random() < 0.5 else "action:{%s}" % act_name[a]
